@@ -7,6 +7,7 @@ package main
 // reference glob / range semantics.
 
 import (
+	"bytes"
 	"context"
 	"fmt"
 	"os"
@@ -57,6 +58,9 @@ func fracDict(seed int64, n int) [][]byte {
 	r := vh.NewRNG(seed*7919 + int64(n))
 	set := map[string]bool{"": true, "a": true, "ab": true, "b": true}
 	stems := []string{"", "a", "ab", "abc", "b", "ba", "c", "cab", "abab", "zz"}
+	if n >= 60 { // leading bytes spread over 0x20..0xFF next to the Latin ones (byte order, not rune or signed order)
+		stems = append(stems, mixedStems...)
+	}
 	for len(set) < n {
 		switch r.Intn(10) {
 		case 0:
@@ -295,6 +299,74 @@ func (h *H) fracTokens(dict [][]byte, nRandom int) []tok {
 	return toks
 }
 
+// mixedStems: leading bytes spread over 0x20..0xFF: punctuation, digits, upper and lower Latin, Cyrillic, CJK, emoji,
+// invalid UTF-8 and raw high bytes.  The sealed dictionary must be in bytes.Compare order whatever the alphabet.
+var mixedStems = []string{"!", "#x", "0", "7", "A", "Zeta", "~", "привет", "Привет", "я", "日本語", "日", "😀", "😀x", "\x80", "\x80\x01", "\xc3\x28", "\xf4\x8f", "\xff", "\xff\xff"}
+
+// fracDictMixed: a dictionary dominated by mixed-alphabet values
+func fracDictMixed(seed int64, n int) [][]byte {
+	r := vh.NewRNG(seed*65537 + int64(n))
+	set := map[string]bool{"": true, "a": true}
+	for _, s := range mixedStems {
+		set[s] = true
+	}
+	tails := []string{"a", "b", "Z", "0", "я", "日", "😀", "\x80", "\xff", " "}
+	for len(set) < n {
+		b := []byte(mixedStems[r.Intn(len(mixedStems))])
+		for l := r.Range(0, 6); l > 0; l-- {
+			b = append(b, tails[r.Intn(len(tails))]...)
+		}
+		if r.Chance(1, 3) {
+			b = append(b, bytes.Repeat([]byte("x"), r.Range(20, 60))...)
+		}
+		set[string(b)] = true
+	}
+	keys := vh.SortedKeys(set)
+	res := make([][]byte, len(keys))
+	for i, k := range keys {
+		res[i] = []byte(k)
+	}
+	return res
+}
+
+func mixedTokens(dict [][]byte, r *vh.RNG) []tok {
+	str := func(s string) *string { return &s }
+	var toks []tok
+	for _, p := range mixedStems {
+		toks = append(toks, tok{lit: []term{{data: []byte(p)}}}, tok{lit: []term{{data: []byte(p)}, {star: true}}}, tok{lit: []term{{data: []byte(p)}, {star: true}, {data: []byte("x")}}})
+	}
+	toks = append(toks, tok{r: &rng{from: str("0"), to: str("я"), incFrom: true}}, tok{r: &rng{from: str("Z"), to: str("日"), incTo: true}},
+		tok{r: &rng{from: str("\x80")}}, tok{r: &rng{to: str("😀"), incTo: true}}, tok{r: &rng{from: str("я"), to: str("\xff\xff"), incFrom: true, incTo: true}})
+	for k := 0; k < 40; k++ {
+		v := dict[r.Intn(len(dict))]
+		toks = append(toks, tok{lit: []term{{data: v}}})
+		if len(v) > 1 {
+			toks = append(toks, tok{lit: []term{{data: v[:r.Range(1, len(v)-1)]}, {star: true}}})
+		}
+	}
+	return toks
+}
+
+// fracDictHuge: ONE field whose dictionary needs more than 256 token blocks (hence > 256 token-table entries):
+// n-4 unique values of ~3.9 KB.
+func fracDictHuge(seed int64, n int) [][]byte {
+	res := [][]byte{[]byte(""), []byte("a")}
+	for i := 0; i < n-4; i++ {
+		res = append(res, []byte(fmt.Sprintf("h%05d-%s", i*7, strings.Repeat(string(rune('a'+(i+int(seed))%26)), 3900+(i*13)%90))))
+	}
+	sort.Slice(res, func(i, j int) bool { return bytes.Compare(res[i], res[j]) < 0 })
+	return res
+}
+
+func hugeTokens(dict [][]byte) []tok {
+	first, last, mid := dict[2], dict[len(dict)-1], dict[len(dict)/2]
+	return []tok{
+		{lit: patTerms("*")}, {lit: patTerms("h*")}, {lit: []term{{data: first}}}, {lit: []term{{data: last}}}, {lit: []term{{data: mid}}},
+		{lit: patTerms("h000*")}, {lit: patTerms("h0[0-9]*")}, {lit: []term{{data: mid[:9]}, {star: true}}}, {lit: []term{{data: last[:7]}, {star: true}, {data: last[len(last)-1:]}}},
+		{lit: patTerms("a")}, {lit: patTerms("")}, {r: &rng{from: func() *string { s := string(first[:6]); return &s }(), to: func() *string { s := string(mid[:6]); return &s }(), incFrom: true}},
+	}
+}
+
 // fracDictNum: a dictionary dominated by numbers in many spellings ("1.7", "+1.7", "01.70", "17e-1", "1.7e0", ...)
 // so that the numeric region itself spans several token blocks.
 func fracDictNum(seed int64, n int) [][]byte {
@@ -405,6 +477,10 @@ func (h *H) runFrac(env *fracEnv, seed int64, n int, seqs [][]tok) {
 	dict := fracDict(seed, n)
 	var extra map[string][][]byte
 	switch n % 10 {
+	case 4:
+		dict = fracDictHuge(seed, n)
+	case 5:
+		dict = fracDictMixed(seed, n)
 	case 3: // long tokens: 90..100 bytes sharing an 84-byte prefix, so that whole token blocks - and their MaxVal - agree
 		// on more than 72 bytes (consts.DefaultMaxTokenSize); queries lead with fragments longer than that
 		dict = fracDictLong(seed, n)
@@ -421,6 +497,14 @@ func (h *H) runFrac(env *fracEnv, seed int64, n int, seqs [][]tok) {
 		}
 		if n%10 == 3 {
 			toks = append(h.fracTokens(dict, 20), longTokens(dict, h.rnd)...)
+		}
+		if n%10 == 5 {
+			toks = append(h.fracTokens(dict, 20), mixedTokens(dict, h.rnd)...)
+		} else if n >= 60 {
+			toks = append(toks, mixedTokens(dict, h.rnd)[:3*len(mixedStems)+5]...)
+		}
+		if n%10 == 4 {
+			toks = hugeTokens(dict)
 		}
 		rev := make([]tok, len(toks))
 		for i, t := range toks {
@@ -497,10 +581,76 @@ func (h *H) runFrac(env *fracEnv, seed int64, n int, seqs [][]tok) {
 		return
 	}
 	check("sealed", pre)
+	h.checkLayout("sealed", pre, seed, n, dict)
 	check("reopened", re)
+	h.checkLayout("reopened", re, seed, n, dict)
 	h.orFrac.Distribution[fmt.Sprintf("dict-bytes>=%dKiB", dictBytes(dict)/16384*16)]++
 	if extra != nil {
 		h.orFrac.Distribution[fmt.Sprintf("wide-fields=%d", len(extra))]++
+	}
+}
+
+// checkLayout: the hypothesis BlocksOK of c13_sealed_eq_scan on the real sealed fraction, as its own provider sees
+// the token table: field f's entries are non-empty consecutive runs (TIDs contiguous), their concatenation is the
+// dictionary in strict bytes.Compare order, MinVal = first value, MaxVal of an entry = last value of its run.
+func (h *H) checkLayout(form string, f frac.Fraction, seed int64, n int, dict [][]byte) {
+	dp, release := f.DataProvider(context.Background())
+	defer release()
+	var problem string
+	res := guard(func() string {
+		minVal, starts, maxVals, runs, ok := frac.VerifSealedFieldLayout(dp, "f")
+		if !ok {
+			problem = "field f has no token table entries"
+			return "ok"
+		}
+		var flat [][]byte
+		next := starts[0]
+		for i, run := range runs {
+			switch {
+			case len(run) == 0:
+				problem = fmt.Sprintf("entry %d is empty", i)
+			case starts[i] != next:
+				problem = fmt.Sprintf("entry %d starts at TID %d, expected %d", i, starts[i], next)
+			case maxVals[i] != string(run[len(run)-1]):
+				problem = fmt.Sprintf("entry %d: MaxVal %q is not its last value %q", i, short(maxVals[i]), short(string(run[len(run)-1])))
+			}
+			if problem != "" {
+				return "ok"
+			}
+			next += uint32(len(run))
+			flat = append(flat, run...)
+		}
+		if minVal != string(flat[0]) {
+			problem = fmt.Sprintf("MinVal %q is not the first value %q", short(minVal), short(string(flat[0])))
+			return "ok"
+		}
+		for i := 1; i < len(flat); i++ {
+			if bytes.Compare(flat[i-1], flat[i]) >= 0 {
+				problem = fmt.Sprintf("values %d and %d are not in strict bytes.Compare order: %q then %q", i-1, i, short(string(flat[i-1])), short(string(flat[i])))
+				return "ok"
+			}
+		}
+		if len(flat) != len(dict) {
+			problem = fmt.Sprintf("the table covers %d values in %d entries, the dictionary has %d", len(flat), len(runs), len(dict))
+			return "ok"
+		}
+		for i := range flat {
+			if !bytes.Equal(flat[i], dict[i]) {
+				problem = fmt.Sprintf("value %d is %q, the dictionary has %q", i, short(string(flat[i])), short(string(dict[i])))
+				return "ok"
+			}
+		}
+		h.orFrac.Distribution[fmt.Sprintf("layout-entries>=%d", len(runs)/64*64)]++
+		return "ok"
+	})
+	key := fmt.Sprintf("frac seed=%d n=%d layout=%s", seed, n, form)
+	h.orFrac.Case(key, len(dict) > 100, "form="+form, "layout")
+	if res == "panic" {
+		problem = "panic while reading the token table"
+	}
+	if problem != "" {
+		h.violate("frac:tokenTable("+form+")", "sealed-dictionary-not-sorted-runs",
+			fmt.Sprintf("%s fraction, dictionary of %d values (shape n=%d), field f: %s", form, len(dict), n, problem), key)
 	}
 }
 
@@ -522,9 +672,9 @@ func (h *H) genFrac() {
 		return
 	}
 	defer env.close()
-	sizes := []int{5, 60, 2500, 5001, 1502, 1203}
+	sizes := []int{5, 60, 2500, 5001, 1502, 1203, 605, 1304}
 	if h.o.Thorough() {
-		sizes = []int{1, 5, 60, 700, 2500, 5001, 1502, 1203, 6000, 12001, 3002, 4003, 20000}
+		sizes = []int{1, 5, 60, 700, 2500, 5001, 1502, 1203, 605, 1304, 6000, 12001, 3002, 4003, 2505, 20000}
 	}
 	for rep := 0; rep < h.o.Pick(1, 3); rep++ {
 		for i, n := range sizes {
@@ -539,6 +689,7 @@ func (h *H) replayFrac(f []string) error {
 	var seed int64
 	var n int
 	var sq []tok
+	layoutOnly := false
 	for _, kv := range f[1:] {
 		p := strings.SplitN(kv, "=", 2)
 		if len(p) != 2 {
@@ -549,6 +700,8 @@ func (h *H) replayFrac(f []string) error {
 			seed, _ = strconv.ParseInt(p[1], 10, 64)
 		case "n":
 			n, _ = strconv.Atoi(p[1])
+		case "layout":
+			layoutOnly = true
 		case "tok":
 			t, err := parseTok(p[1])
 			if err != nil {
@@ -564,6 +717,9 @@ func (h *H) replayFrac(f []string) error {
 				sq = append(sq, t)
 			}
 		}
+	}
+	if layoutOnly {
+		sq = []tok{{lit: patTerms("*")}}
 	}
 	if n == 0 || len(sq) == 0 {
 		return fmt.Errorf("missing n or tokens")
